@@ -111,17 +111,22 @@ def run(tier, replay=None):
     c.sample({"cfg": evs[0]["cfg"], "full_len": len(evs[0]["full"]) // 2, "nodocs_len": len(evs[0]["nodocs"]) // 2, "full_head": evs[0]["full"][:64]})
     if not ok:
         at = info["at"]; bad = evs[at - 1]
-        first = next(e for e in evs[:at - 1] if not agree(e, bad))
-        rp = c.replay_file("fingerprints.ndjson", "\n".join(json.dumps(e) for e in (first, bad)) + "\n")
-        c.violation("features", "metadata differs between feature sets %s and %s beyond documentation strings" % (first["cfg"], bad["cfg"]), rp)
+        if bad.get("secondfull") != bad.get("full") or bad.get("secondnodocs") != bad.get("nodocs"):
+            rp = c.replay_file("fingerprints.ndjson", json.dumps(bad) + "\n")
+            c.violation("features-self", "with features %s the same corpus registered a second time in a fresh registry of the same thread encodes differently from the first time (the other feature sets agree with themselves)" % bad["cfg"], rp)
+        else:
+            first = next(e for e in evs[:at - 1] if not agree(e, bad))
+            rp = c.replay_file("fingerprints.ndjson", "\n".join(json.dumps(e) for e in (first, bad)) + "\n")
+            c.violation("features", "metadata differs between feature sets %s and %s beyond documentation strings" % (first["cfg"], bad["cfg"]), rp)
     c.cov["exhaustive"] = thorough
-    c.cov["rule"] = "one real build of the fingerprint binary (harness/fp: ~40 built-in and derived types, generic, recursive, documented, all capture_docs modes, replace_segment, skipped parameters, associated types, 20-tuple; the same documented struct / tuple struct / enum under every capture_docs mode; a TLC-enumerated corpus of built-in type expressions; one hand-written TypeInfo impl per complete legal call sequence of the builder automaton, i.e. every docs setter at every position; BitVec sub-corpus under bit-vec) per feature selection (%d selections), fingerprints = hex of encode(PortableRegistry) with and without docs; the Features acceptor requires pairwise agreement" % len(evs)
+    c.cov["rule"] = "one real build of the fingerprint binary (harness/fp: ~40 built-in and derived types, generic, recursive, documented, all capture_docs modes, replace_segment, skipped parameters, associated types, 20-tuple; the same documented struct / tuple struct / enum under every capture_docs mode; a TLC-enumerated corpus of built-in type expressions; one hand-written TypeInfo impl per complete legal call sequence of the builder automaton, i.e. every docs setter at every position; BitVec sub-corpus under bit-vec) per feature selection (%d selections), fingerprints = hex of encode(PortableRegistry) with and without docs, of three registries per process (the corpus, the corpus again, the corpus in the opposite order); the Features acceptor requires pairwise agreement" % len(evs)
     c.assumptions += ["the specification contributes the configuration space and the acceptance relation; the deciding evidence is one real build per configuration"]
     return c.finish()
 
 def agree(a, b):
     da, db = "docs" in a["cfg"], "docs" in b["cfg"]
-    if a["nodocs"] != b["nodocs"]: return False
+    if a["nodocs"] != b["nodocs"] or a.get("revnodocs") != b.get("revnodocs"): return False
+    if da == db and a.get("revfull") != b.get("revfull"): return False
     if da == db and a["full"] != b["full"]: return False
     if "bit-vec" in a["cfg"] and "bit-vec" in b["cfg"]:
         if a["bvnodocs"] != b["bvnodocs"] or (da == db and a["bvfull"] != b["bvfull"]): return False
